@@ -2,12 +2,19 @@
 """markdown table of /verif/seeded/*/meta.json for DESIGN.md §11"""
 import glob, json, os
 rows = []
-for f in sorted(glob.glob("/verif/seeded/*/meta.json")):
+tot = {"1": [0, 0, 0], "2": [0, 0, 0]}
+for f in sorted(glob.glob("/verif/seeded/*/meta.json"), key=lambda p: (os.path.basename(os.path.dirname(p)).startswith("r2"), p)):
     m = json.load(open(f))
-    first = m.get("first_run", {})
-    final = m.get("checks_run", {})
-    def fmt(d):
-        return ", ".join(f"{k}: {('VIOLATION' if v['exit'] == 1 else 'missed' if v['exit'] == 0 else 'engine error')}" for k, v in d.items()) or "-"
-    rows.append(f"| {m['seed']} | {m['property']} | {m.get('summary', '')[:200]} | {fmt(first)} | {fmt(final)} |")
-print("| seed | property | change (needs) | first run | final checks |\n|---|---|---|---|---|")
+    prop = m["property"]
+    first = m.get("first_run", {}).get(prop)
+    final = m.get("checks_run", {}).get(prop)
+    r = m.get("round", "1")[0]
+    tot[r][0] += 1
+    tot[r][1] += bool(first and first["exit"] == 1)
+    tot[r][2] += bool(final and final["exit"] == 1)
+    rows.append(f"| {m['seed']} | {m.get('summary', '')[:160].replace('|', '/')} | {first['verdict'] if first else '-'} | {final['verdict'] if final else '-'} |")
+print("| seed | change | quick check of its property when first tried | final quick check |\n|---|---|---|---|")
 print("\n".join(rows))
+print()
+for r, (n, a, b) in tot.items():
+    print(f"Round {r}: {n} changes, {a} caught when first tried, {b} caught by the final checks.")
